@@ -113,6 +113,21 @@ func c17TagJSON(v any) (tagged any, text []byte, err error) {
 	return c17Tag(g), text, nil
 }
 
+// c17After logs under key the document v as it is marshalled now, or only "<key>Same": true when its JSON text is
+// the text it had before (a compression of the log: TLC then has nothing to compare).
+func c17After(line map[string]any, key string, v any, before []byte) {
+	tagged, text, err := c17TagJSON(v)
+	if err != nil {
+		line[key+"Err"] = err.Error()
+		return
+	}
+	if string(text) == string(before) {
+		line[key+"Same"] = true
+		return
+	}
+	line[key] = tagged
+}
+
 type c17Case struct {
 	D   any `json:"d"`
 	Ids any `json:"ids"`
@@ -156,7 +171,7 @@ func c17Run(c *Case) []any {
 		return fail("un", c17Outcome(p, err), msg)
 	}
 	line["un"] = "ok"
-	rd, _, err := c17TagJSON(&doc2) // before ToV3, which edits its argument in places
+	rd, textRd, err := c17TagJSON(&doc2) // before ToV3, which edits its argument in places
 	if err != nil {
 		return fail("un", "error", "marshal of the unmarshalled document: "+err.Error())
 	}
@@ -172,15 +187,11 @@ func c17Run(c *Case) []any {
 			err = fmt.Errorf("nil document")
 			msg = err.Error()
 		}
-		if rd2, _, e2 := c17TagJSON(&doc2); e2 == nil { // the input after the call
-			line["rd2"] = rd2
-		}
+		c17After(line, "rd2", &doc2, textRd) // the input after the call
 		return fail("to3", c17Outcome(p, err), msg)
 	}
 	line["to3"] = "ok"
-	if rd2, _, e2 := c17TagJSON(&doc2); e2 == nil { // the input after the call: a conversion must not edit its argument
-		line["rd2"] = rd2
-	}
+	c17After(line, "rd2", &doc2, textRd) // the input after the call: a conversion must not edit its argument
 	d3, text3, err := c17TagJSON(doc3) // before FromV3, which edits its argument in places
 	if err != nil {
 		return fail("to3", "error", "marshal of the converted document: "+err.Error())
@@ -222,9 +233,8 @@ func c17Run(c *Case) []any {
 		return fail("from3", c17Outcome(p, err), msg)
 	}
 	line["from3"] = "ok"
-	if d3b, _, e3 := c17TagJSON(doc3); e3 == nil { // the input of FromV3 after the call
-		line["d3b"] = d3b
-	}
+	c17After(line, "d3b", doc3, text3)   // the input of FromV3 after the call
+	c17After(line, "rd3", &doc2, textRd) // the caller's OpenAPI 2 document after FromV3 (doc3 shares parts of it)
 	d2b, _, err := c17TagJSON(doc2b)
 	if err != nil {
 		return fail("from3", "error", "marshal of the document converted back: "+err.Error())
